@@ -203,4 +203,16 @@ def dispatchX : List String → Option (Obs × Option Obs)
     some (obOf (Cpp.find (fun _ => d) pat st), some (obOf (findSequenceOnDisk (fun _ => d) pat st false false)))
   | _ => none
 
+/-- the sequences the C++ driver constructs during static initialisation -/
+def globalTexts : List String :=
+  ["/proj/shot/beauty.1-10#.exr", "/proj/shot/beauty.0101.exr", "rel/v2_take.5-9@@.tif"]
+
+/-- `x.global k qf qi` is `x.seq` of the k-th text (default style); everything else as before -/
+def dispatchXG : List String → Option (Obs × Option Obs)
+  | ["x.global", k, qf, qi] =>
+    match globalTexts[k.toNat!]? with
+    | some t => dispatchX ["x.seq", "4", hex t.toList, qf, qi]
+    | none => some ([("valid", "0")], none)
+  | f => dispatchX f
+
 end Gfs.Ops
